@@ -39,8 +39,10 @@ Theorem C07_error : forall O, lp_spec 0 O -> forall ts ctx, wfl ts -> wfl (opt_l
 Proof. exact simplify_error. Qed.
 Print Assumptions C07_error.
 
+(* for EVERY list and context, also ones containing variable-free terms such as '0 <= -0.5' (a tactic can leave one behind):
+   before repo commit 12672f5 an AssertionError escaped here *)
 Theorem C07_errors_only : forall O ts ctx e, poly_simplify O ts ctx = inr e ->
-  e = ValueErr \/ e = OracleMiss \/ e = Escape "AssertionError".
+  e = ValueErr \/ e = OracleMiss.
 Proof. exact simplify_errors_only. Qed.
 Print Assumptions C07_errors_only.
 (* ... and on well-formed lists (every term mentions a variable) no assertion can fail *)
